@@ -69,3 +69,146 @@ def register(reg):
         raise_frame_empty=False,
         note="non-static input: exactly one request (source, time, target or self) reaches the source; upstream buffers are only evicted",
     ))
+    register_verified(reg)
+
+
+# =================================================================================================
+# Input.pull_data / _convert_and_check verified (C08.3, C20.1)
+# =================================================================================================
+TRANSF = z3.Function("grid_transform", sv.OpaqueS, sv.RealS, sv.RealS)     # value function of a stored grid transform
+TOUNITS = z3.Function("to_units", sv.RealS, sv.IntS, sv.RealS)             # data converted to the units of an Info
+GOT = z3.Function("source_served", sv.IntS, sv.RealS)                       # what the n-th logged request returned
+
+
+def register_verified(reg):
+    from .base import TObj
+
+    # ---- IOutput.get_data (interface): one logged request; upstream buffers only evict
+    def gd_mod(ctx):
+        return [(None, f) for f in RETENTION_FIELDS] + [(WORLD, "$pull_log")]
+
+    def gd_post(ctx, r):
+        l0 = pull_log(ctx.old)
+        return And(log_appended(ctx, ctx.self, ctx.time, ctx.target), r.e == GOT(l0.n), buffers_only_evicted(ctx))
+
+    reg.add(Contract("iface:IOutput.get_data", params={"time": TimeOpt, "target": TOpt(TRef("IInput"))}, note="method",
+                     result=Pay, verify=False, modifies=gd_mod, ensures=gd_post,
+                     raises={"FinamTimeError": lambda ctx: z3.BoolVal(True), "FinamNoDataError": lambda ctx: z3.BoolVal(True)},
+                     raise_frame_empty=True))
+
+    # ---- assumed library contracts used by _convert_and_check
+    def tu_result(ctx):
+        units = ctx.units
+        val = sv.SPay(TOUNITS(ctx.xdata.e, ctx.ex.key_expr(units) if not isinstance(units, sv.SObj) else z3.Int("u")))
+        rc = ctx.args.get("report_conversion")
+        if rc is not None and sv.is_true(sv.simp(rc.e)):
+            return sv.STup([val, sv.mk(TOpt(TObj("conv")), sv.uid("conv"))])
+        return val
+
+    reg.add(Contract("finam.data.tools.units.to_units", params={"xdata": Pay, "units": TOpt(TObj("units")), "check_equivalent": Bool,
+                                                                 "report_conversion": Bool},
+                     pure=True, verify=False, result_fn=lambda ctx: tu_res(ctx),
+                     raises={"FinamDataError": lambda ctx: z3.BoolVal(True)},
+                     note="assumed here (value function of pint's conversion); decided in C17"))
+    reg.add(Contract("finam.data.tools.core.check", params={"xdata": Pay, "info": TRef("Info")}, pure=True, verify=False,
+                     raises={"FinamDataError": lambda ctx: z3.BoolVal(True)},
+                     note="assumed: raises FinamDataError unless shape/units match the info, no effect"))
+
+    def tu_res(ctx):
+        # the converted value is a function of (data, target units); units objects are opaque
+        u = ctx.units
+        ue = None
+        for g, x in sv.alts_of(u):
+            if isinstance(x, sv.SObj):
+                ue = x.e
+        if ue is None:
+            ue = z3.Const("no_units", sv.OpaqueS)
+        val = sv.SPay(z3.Function("to_units_of", sv.RealS, sv.OpaqueS, sv.RealS)(ctx.xdata.e, ue))
+        rc = ctx.args.get("report_conversion")
+        if rc is not None and sv.is_true(sv.simp(rc.e)):
+            return sv.STup([val, sv.mk(TOpt(TObj("conv")), sv.uid("conv"))])
+        return val
+
+    def conv_of(ctx, s, x):
+        """spec: transform between compatible grids (if one was stored at connect), then conversion to the consumer's units"""
+        tr = ctx.get(s, "_transform")
+        te = None
+        for g, v in sv.alts_of(tr):
+            if isinstance(v, sv.SObj):
+                te = v.e
+        y = x if te is None else If(is_none(tr), x, TRANSF(te, x))
+        info = ctx.get(s, "_input_info")
+        units = ctx.get(strip_none(info).e, "$units")
+        ue = None
+        for g, v in sv.alts_of(units):
+            if isinstance(v, sv.SObj):
+                ue = v.e
+        if ue is None:
+            ue = z3.Const("no_units", sv.OpaqueS)
+        return z3.Function("to_units_of", sv.RealS, sv.OpaqueS, sv.RealS)(y, ue)
+
+    # ---- _convert_and_check
+    reg.add(Contract(
+        f"{INP}._convert_and_check", self_cls="Input", props=["C08.3"], params={"data": Pay}, result=Pay,
+        requires=lambda ctx: Not(is_none(ctx.get(ctx.self, "_input_info"))),
+        ensures=lambda ctx, r: r.e == conv_of(ctx, ctx.self, ctx.data.e), modifies=lambda ctx: [], pure=True,
+        raises={"FinamDataError": lambda ctx: z3.BoolVal(True)},
+    ))
+
+    # ---- pull_data, non-static input
+    def pd_post(ctx, r):
+        s = ctx.self
+        src = ctx.old.get(s, "_source")
+        tgt = ctx.target
+        eff_tgt = sv.ite(ctx.ex.truthy(tgt, ctx.path), tgt, s)
+        l0 = pull_log(ctx.old)
+        return And(log_appended(ctx, src, ctx.time, eff_tgt), r.e == conv_of(ctx, s, GOT(l0.n)), buffers_only_evicted(ctx))
+
+    reg.add(Contract(
+        f"{INP}.pull_data", self_cls="Input", props=["C08.3", "C13.2"], params={"time": TimeOpt, "target": TOpt(TRef("IInput"))},
+        result=Pay, primary=False, name="pull_data<non-static>",
+        requires=lambda ctx: And(Not(is_none(ctx.get(ctx.self, "_source"))), Not(ctx.get(ctx.self, "_static").e),
+                                 Not(is_none(ctx.get(ctx.self, "_input_info")))),
+        ensures=pd_post, modifies=lambda ctx: [(None, f) for f in RETENTION_FIELDS] + [(WORLD, "$pull_log")],
+        raises={"FinamTimeError": lambda ctx: z3.BoolVal(True), "FinamNoDataError": lambda ctx: z3.BoolVal(True),
+                "FinamDataError": lambda ctx: z3.BoolVal(True)},
+    ))
+
+    # ---- pull_data, static input: fetch once, then serve the cached value without touching the source (C20.1)
+    def ps_post(ctx, r):
+        s = ctx.self
+        c0 = ctx.old
+        cached0 = c0.get(s, "_cached_data")
+        cached1 = ctx.get(s, "_cached_data")
+        src = c0.get(s, "_source")
+        tgt = ctx.target
+        eff_tgt = sv.ite(ctx.ex.truthy(tgt, ctx.path), tgt, s)
+        l0, l1 = pull_log(c0), pull_log(ctx)
+        first = And(log_appended(ctx, src, ctx.time, eff_tgt), Not(is_none(cached1)),
+                    strip_none(cached1).e == conv_of(ctx, s, GOT(l0.n)), Not(is_none(r)), strip_none(r).e == strip_none(cached1).e)
+        later = And(l1.n == l0.n, Not(is_none(r)), strip_none(r).e == strip_none(cached0).e, sv.value_eq(cached1, cached0))
+        return If(is_none(cached0), first, later)
+
+    reg.add(Contract(
+        f"{INP}.pull_data", self_cls="Input", props=["C20.1", "C08.3"], params={"time": TimeOpt, "target": TOpt(TRef("IInput"))},
+        result=Pay, primary=False, name="pull_data<static>",
+        requires=lambda ctx: And(Not(is_none(ctx.get(ctx.self, "_source"))), ctx.get(ctx.self, "_static").e,
+                                 Not(is_none(ctx.get(ctx.self, "_input_info")))),
+        ensures=ps_post, modifies=lambda ctx: [(None, f) for f in RETENTION_FIELDS] + [(WORLD, "$pull_log"), (ctx.self, "_cached_data")],
+        raises={"FinamTimeError": lambda ctx: z3.BoolVal(True), "FinamNoDataError": lambda ctx: z3.BoolVal(True),
+                "FinamDataError": lambda ctx: z3.BoolVal(True)},
+    ))
+
+
+def install(ex):
+    def call_transform(ex, fn, args, kwargs, path, node):
+        if isinstance(fn, sv.SObj) and fn.okind == "transform":
+            x = ex.expect(args[0], sv.SPay, path, node)
+            return sv.SPay(TRANSF(fn.e, x.e))
+        return None
+
+    ex.hooks.setdefault("call_value", []).append(call_transform)
+
+
+BOUNDED = {"C08": [{"name": "prepare-payload-forms", "script": "replay/drivers/bnd_prepare.py", "args": ["--json"], "timeout": 600}]}
+REPLAY = {f"{INP}.pull_data": "seq_output.py", f"{INP}._convert_and_check": "seq_output.py"}
